@@ -379,10 +379,10 @@ func ruleV4k(c *Ctx) *RuleResult {
 		if g == nil || g.Signature.Recv() == nil || !typeIs(g.Signature.Recv().Type(), modPath, "muxerServer") {
 			return
 		}
-		switch g.Name() {
-		case "initialize":
+		switch {
+		case g.Name() == "initialize":
 			initCall = call
-		case "registerPath":
+		case g == c.pathTableFn("register"):
 			regs = append(regs, call)
 		}
 	})
@@ -610,6 +610,26 @@ func ruleF48(c *Ctx) *RuleResult {
 			r.undecided("%s.getNTP not found", tn)
 			continue
 		}
+		// the computation may live in a helper that getNTP calls with its lock held
+		hasSub := func(g *ssa.Function) bool {
+			found := false
+			allInstrs(g, func(in ssa.Instruction) {
+				if sub, ok := in.(*ssa.BinOp); ok && sub.Op == token.SUB {
+					if b, ok := sub.Type().Underlying().(*types.Basic); ok && b.Kind() == types.Int64 {
+						found = true
+					}
+				}
+			})
+			return found
+		}
+		if !hasSub(fn) {
+			for _, g := range sameRecvCallees(fn) {
+				if hasSub(g) {
+					fn = g
+					break
+				}
+			}
+		}
 		n++
 		key := tn + ".getNTP|sign"
 		what := "the offset added to the stored wall clock is (timestamp parameter) - (stored timestamp)"
@@ -770,4 +790,22 @@ func ruleK12(c *Ctx) *RuleResult {
 	}
 	r.Instances = n
 	return r
+}
+
+// sameRecvCallees: the methods of fn's receiver type that fn calls statically, transitively (bounded).
+func sameRecvCallees(fn *ssa.Function) []*ssa.Function {
+	if fn == nil || fn.Signature.Recv() == nil {
+		return nil
+	}
+	out := []*ssa.Function{fn}
+	for i := 0; i < len(out) && i < 10; i++ {
+		allInstrs(out[i], func(in ssa.Instruction) {
+			if call, ok := in.(*ssa.Call); ok {
+				if g := call.Call.StaticCallee(); g != nil && g.Blocks != nil && g.Signature.Recv() != nil && types.Identical(g.Signature.Recv().Type(), fn.Signature.Recv().Type()) {
+					out = appendUnique(out, g)
+				}
+			}
+		})
+	}
+	return out[1:]
 }
